@@ -7,7 +7,7 @@ namespace Uquic.Proofs.Fields
 open Uquic.Model.H3.Fields Uquic.Gen.H3Fields
 open Uquic.Spec.H3Fields (isPseudoName lowerTchar fieldValueByte isDigitByte connectionSpecific allowedPseudo
   fieldSize sectionSize NameTokens ValueBytes NoConnectionSpecific TeTrailers PseudoKnown PseudoFirst PseudoUnique
-  ClSingle ClNumeric SizeOk WellFormedG WellFormed)
+  ClSingle ClNumeric SizeOk WellFormed)
 
 /-- the remaining budget after a field -/
 def limAfter (s : PS) (f : Field) : Int := s.limit - ((f.1.length : Int) + (f.2.length : Int) + headerFieldOverhead)
